@@ -525,6 +525,22 @@ theorem size_eq_byteLen (t : OpTable) (b : Block)
   unfold Block.size Block.byteLen
   rw [List.map_congr_left hs]
 
+/-- The separator as a function of the instruction list alone: blocks completed and block in progress. -/
+def blocksOf (t : OpTable) (fed : List Disasm.Item) : List Block × Option Block :=
+  fed.foldl (fun acc it => pushAbs t acc.1 acc.2 it.1 it.2) ([], none)
+
+/-- For a schedule without `finish`, the blocks (completed, in that order, and in progress) are a function of the
+instructions fed so far — whatever the grouping into `push` / `push_all` and wherever `take` was called. -/
+theorem run_blocksOf (t : OpTable) (h : List Ev) (hnf : ∀ e ∈ h, e ≠ Ev.finish) :
+    ((run t h).done, (run t h).sep.inProgress) = blocksOf t (run t h).fed := by
+  refine run_abs t (fun done ip fed => (done, ip) = blocksOf t fed) False rfl ?_ ?_ h
+    (fun e he hfin => hnf e he hfin)
+  · intro done ip fed o instr hp
+    unfold blocksOf at hp ⊢
+    rw [List.foldl_append, ← hp]
+    rfl
+  · intro hf; exact hf.elim
+
 /-- The instructions of the push / push_all events of a schedule, in order. -/
 def pushedOf (h : List Ev) : List Disasm.Item :=
   h.flatMap (fun e => match e with | .push it => [it] | .pushAll its => its | .take => [] | .finish => [])
